@@ -32,3 +32,14 @@ func worker(in <-chan int, out chan<- int) {
 		wg.Done()
 	}
 }
+
+type msg struct{ items []int }
+
+// ok (send-fresh): a fresh slice per message
+func collector(in <-chan int, out chan<- msg) {
+	for v := range in {
+		var buf []int
+		buf = append(buf, v)
+		out <- msg{items: buf}
+	}
+}
